@@ -74,6 +74,28 @@ func vhDefIncludeDiamond() Rules {
 	}
 }
 
+// a token that can span lines and hold multi-byte characters after the line break
+func vhDefMultiLine() Rules {
+	return Rules{"Root": {{"Text", `[^a]+`, nil}, {"A", `a`, nil}}}
+}
+
+// characters outside the basic multilingual plane (4 bytes in UTF-8, a
+// surrogate pair in JSON's \uXXXX notation) in names, patterns and state names
+func vhDefAstral() Rules {
+	return Rules{
+		"Root": {{"T😀", `a`, nil}, {"E", `😀|b`, Push("S𝕏")}, {"ws", ` `, nil}},
+		"S𝕏":   {{"P", `[𝕏c]`, Pop()}},
+	}
+}
+
+// rule and state names that are not identifiers and need quoting
+func vhDefOddNames() Rules {
+	return Rules{
+		"Root":      {{"A-b", `a`, Push("S \"x\"\\")}, {"\"q\"", `q`, nil}, {"two words", `w`, nil}},
+		"S \"x\"\\": {{"P.1", `b`, Pop()}, {"A-b", `a`, nil}},
+	}
+}
+
 func vhDefString() Rules { // README-style interpolated string
 	return Rules{
 		"Root":   {{"String", `"`, Push("String")}, {"Ident", `[a-z]+`, nil}},
